@@ -18,6 +18,8 @@ pub struct Out {
     pub bumps: BTreeMap<&'static str, u64>,
     /// largest observed deviations (name -> value), reported as measured numbers in the evidence
     pub maxima: BTreeMap<&'static str, f64>,
+    /// best-scoring example per key (score, example), reported in the evidence
+    pub notes: BTreeMap<&'static str, (f64, serde_json::Value)>,
 }
 
 impl Out {
